@@ -1,0 +1,17 @@
+//go:build verif
+
+package rangeproof
+
+// Export-only accessors for the verification harness in /verif (build tag "verif").
+
+import "github.com/privacybydesign/gabi/big"
+
+// VerifState exposes the secrets and randomizers of a range proof commitment.
+func (c *ProofCommit) VerifState() (d, dRandomizers, v, vRandomizers []*big.Int, v5, v5Randomizer, m, mRandomizer *big.Int, cs []*big.Int) {
+	return c.d, c.dRandomizers, c.v, c.vRandomizers, c.v5, c.v5Randomizer, c.m, c.mRandomizer, c.c
+}
+
+// VerifDescriptor exposes the parameters of a proof structure.
+func (s *ProofStructure) VerifDescriptor() (index, sign int, a uint, k *big.Int, ld uint, n int) {
+	return s.index, s.sign, s.a, s.k, s.ld, len(s.cRep)
+}
